@@ -86,6 +86,31 @@ def overlap_area(a, b):
 
 
 MODNAMES = ["M%d" % i for i in range(12)]
+# names that contain one another, look like derived names, or differ in case: what real designs have (M1 / M10, cpu / cpu_l2)
+TRICKY_NAMES = ["M1", "M10", "M11", "M1_0", "cpu", "cpu_l2", "cpu_0", "A", "AB", "B_", "_x", "M100", "a", "cpu_l2_x", "M1_1", "Ab"]
+
+
+NAME_FAMILIES = [["M1", "M10", "M11", "M100"], ["M1", "M1_0", "M1_1", "M10"], ["cpu", "cpu_l2", "cpu_0", "cpu_l2_x"],
+                 ["A", "AB", "Ab", "a"], ["B_", "_x", "A", "AB"]]
+
+
+def pick_names(r, n, tricky_p=0.25):
+    """n distinct module names: M0..M(n-1), or (now and then) a sample of names related by prefix/substring."""
+    if n <= len(TRICKY_NAMES) and r.chance(tricky_p):
+        # related names come together: one family first, the rest from anywhere
+        fam = list(r.choice(NAME_FAMILIES))
+        names = []
+        while fam and len(names) < n:
+            names.append(fam.pop(r.below(len(fam))))
+        rest = [x for x in TRICKY_NAMES if x not in names]
+        while len(names) < n:
+            names.append(rest.pop(r.below(len(rest))))
+        # the order of the modules in the document is not the order of the family
+        out = []
+        while names:
+            out.append(names.pop(r.below(len(names))))
+        return out
+    return ["M%d" % i for i in range(n)]
 REGION_TAGS = ["dsp", "bram", "LUT"]
 
 
@@ -108,7 +133,7 @@ def gen_allocation(r, family=None, scale_exp=None, max_cells=10, nmods=None, all
     family = family or r.weighted([("dyadic", 5), ("decimal", 3), ("thirds", 1)])
     if scale_exp is None:
         # designs come in all units: mostly around 1, sometimes in very small or very large absolute magnitudes
-        scale_exp = r.choice([-1, 0, 0, 0, 1, 2]) if not extreme_scales or r.chance(0.85) else r.choice([-7, -5, -3, 4, 6])
+        scale_exp = r.choice([-1, 0, 0, 0, 1, 2]) if not extreme_scales or r.chance(0.82) else r.choice([-7, -5, -3, 4, 6, 9, 9, 12])
     nx, ny = r.randint(2, 12), r.randint(2, 12)
     ncells = r.randint(1, max_cells)
     # most layouts start at the origin; some lie far from it (coordinates large compared with the cells)
@@ -121,7 +146,7 @@ def gen_allocation(r, family=None, scale_exp=None, max_cells=10, nmods=None, all
             if len(boxes) > 1:
                 del boxes[r.below(len(boxes))]
     nmods = nmods or r.randint(1, 4)
-    mods = MODNAMES[:nmods]
+    mods = pick_names(r, nmods)
     cells = []
     for b in boxes:
         alloc = {}
@@ -140,7 +165,7 @@ def gen_allocation(r, family=None, scale_exp=None, max_cells=10, nmods=None, all
                     alloc[m] = gen_ratio(r)
         depth = 0
         if allow_depth and r.chance(0.35):
-            depth = r.randint(0, 3)
+            depth = r.randint(0, 3) if r.chance(0.97) else r.randint(100, 140)   # rarely a very deep recorded depth
         cells.append({"box": b, "alloc": alloc, "depth": depth, "fixed": False})
     if allow_fixed and r.chance(0.35):
         c = r.choice(cells)
@@ -152,25 +177,34 @@ def gen_allocation(r, family=None, scale_exp=None, max_cells=10, nmods=None, all
         for m in list(c["alloc"]):
             if c["alloc"][m] <= 0:
                 del c["alloc"][m]
+    # explicit zero entries are valid as long as the module has area somewhere (include_area_zero produces them)
+    if r.chance(0.15):
+        for c in cells:
+            if not c["fixed"]:
+                for m in mods:
+                    if m not in c["alloc"] and m in used and r.chance(0.3):
+                        c["alloc"][m] = 0.0
     for m in mods:
         if m not in used:
             free = [c for c in cells if not c["fixed"]]
             if free:
                 r.choice(free)["alloc"][m] = gen_ratio(r)
     # slivers: shift one inner boundary of one cell by a tiny amount so that the 1 % rule matters
-    if slivers and len(cells) >= 2 and r.chance(0.25):
-        c = r.choice(cells)
-        x0, y0, x1, y1 = c["box"]
-        d = Fraction(1, r.choice([64, 128, 256, 1024]))
-        side = r.below(4)
-        if side == 0 and x1 - x0 > 0:
-            c["box"] = (x0 + d, y0, x1, y1)
-        elif side == 1:
-            c["box"] = (x0, y0, x1 - d, y1)
-        elif side == 2:
-            c["box"] = (x0, y0 + d, x1, y1)
-        else:
-            c["box"] = (x0, y0, x1, y1 - d)
+    # (1/16 and 1/32 of a lattice unit are not slivers for a thin neighbour: near-aligned boundaries that must both be cut)
+    if slivers and len(cells) >= 2 and r.chance(0.3 if scale_exp < 6 else 0.7):
+        for _ in range(r.weighted([(1, 5), (2, 3), (3, 2)])):
+            c = r.choice(cells)
+            x0, y0, x1, y1 = c["box"]
+            d = Fraction(1, r.choice([16, 32, 64, 64, 128, 256, 1024]))
+            side = r.below(4)
+            if side == 0:
+                c["box"] = (x0 + d, y0, x1, y1)
+            elif side == 1:
+                c["box"] = (x0, y0, x1 - d, y1)
+            elif side == 2:
+                c["box"] = (x0, y0 + d, x1, y1)
+            else:
+                c["box"] = (x0, y0, x1, y1 - d)
     return {"family": family, "scale_exp": scale_exp, "nx": nx, "ny": ny, "cells": cells}
 
 
@@ -269,13 +303,14 @@ def gen_netlist(r, die, nmods=None, kinds=None, allow_terminals=True, need_cente
     kinds = kinds or ["soft", "soft", "soft", "hard", "fixed", "terminal"]
     mods = []
     fixed_taken = []
+    modnames = pick_names(r, nmods)
     for i in range(nmods):
         kind = r.choice(kinds)
         if i < min_movable:
             kind = r.choice([k for k in kinds if k in ("soft", "hard")] or ["soft"])
         if kind == "terminal" and not allow_terminals:
             kind = "soft"
-        m = {"name": "M%d" % i, "kind": kind}
+        m = {"name": modnames[i], "kind": kind}
         if kind == "soft":
             a = r.randint(1, max(1, die["nx"] * die["ny"] // (nmods + 1)))
             m["area"] = a  # in lattice units^2
